@@ -19,7 +19,11 @@ impl ProtoModel for Proto {
     }
 }
 struct NoClock;
-impl Clock for NoClock {}
+impl Clock for NoClock {
+    fn synchronize(&mut self, _deadline: MonotonicTime) -> SyncStatus {
+        SyncStatus::Synchronized
+    }
+}
 
 fn node_json(n: &Node) -> String {
     let cs: Vec<String> = n.children.iter().map(node_json).collect();
@@ -37,8 +41,11 @@ fn qualify(parent: Option<&str>, n: &Node, out: &mut Vec<(usize, String, usize)>
     }
 }
 
-fn build_sim(forest: &[Node]) -> Simulation {
+// registers the forest through the real SimInit::add_model and initialises it through the real SimInit::init;
+// `early` = number of init / message events that had already happened when SimInit::init was entered
+fn build_sim(forest: &[Node]) -> (Result<Simulation, ExecutionError>, usize) {
     INIT_LOG.lock().unwrap().clear();
+    EVENT_LOG.lock().unwrap().clear();
     let mut si = SimInit {
         executor: Executor::new(),
         scheduler_queue: Arc::new(Mutex::new(SchedulerQueue)),
@@ -54,7 +61,8 @@ fn build_sim(forest: &[Node]) -> Simulation {
         let (len, tag, name) = (r.len, r.tag, r.name.clone());
         si = si.add_model(Proto(r.clone()), Mailbox::scripted(len, tag), name);
     }
-    Simulation::new(si.executor, si.scheduler_queue, si.time, si.clock, si.clock_tolerance, si.timeout, si.observers, si.model_names)
+    let early = EVENT_LOG.lock().unwrap().len();
+    (si.init(MonotonicTime(0)).map(|x| x.0), early)
 }
 
 struct Failure {
@@ -69,22 +77,38 @@ fn run_forest(forest: &[Node]) -> Vec<Failure> {
     for r in forest {
         qualify(None, r, &mut want);
     }
-    // ---- initialise: every model's init runs exactly once, under its qualified name and its own id
-    let mut sim = build_sim(forest);
-    if sim.run().is_err() {
-        fails.push(Failure { check: "init-run", props: "C06,C11", detail: "the fault-free initial run failed".into() });
-        return fails;
+    // ---- C16: initialise through SimInit::init: every model's init runs exactly once, during SimInit::init and before
+    // that model takes its first message, under its qualified name; C11: and under its own id
+    let (built, early) = build_sim(forest);
+    let mut sim = match built {
+        Ok(s) => s,
+        Err(_) => {
+            fails.push(Failure { check: "init-run", props: "C06,C11,C16", detail: "the fault-free SimInit::init failed".into() });
+            return fails;
+        }
+    };
+    if early != 0 {
+        fails.push(Failure { check: "nothing-runs-before-SimInit-init", props: "C16", detail: format!("{} init/message events had happened before SimInit::init was called", early) });
     }
     let inits = INIT_LOG.lock().unwrap().clone();
+    let events = EVENT_LOG.lock().unwrap().clone();
     for (tag, q, _) in &want {
         let n = inits.iter().filter(|x| x.2 == *tag).count();
         if n != 1 {
-            fails.push(Failure { check: "every-model-initialised-once", props: "C06,C11", detail: format!("model {} was initialised {} times", q, n) });
+            fails.push(Failure { check: "every-model-initialised-exactly-once-during-SimInit-init", props: "C16", detail: format!("model {} was initialised {} times by the time SimInit::init returned", q, n) });
             return fails;
         }
+        let i_init = events.iter().position(|e| *e == ("init", *tag));
+        let i_msg = events.iter().position(|e| *e == ("message", *tag));
+        match (i_init, i_msg) {
+            (Some(a), Some(b)) if a < b => {}
+            (Some(_), None) => {}
+            _ => fails.push(Failure { check: "init-before-the-first-message", props: "C16", detail: format!("model {}: events {:?}", q, events.iter().filter(|e| e.1 == *tag).collect::<Vec<_>>()) }),
+        }
         let (id, cxname, _) = inits.iter().find(|x| x.2 == *tag).unwrap().clone();
-        // (the name carried by the model's own context is C16's concern, which this technique does not claim: not checked)
-        let _ = cxname;
+        if &cxname != q {
+            fails.push(Failure { check: "context-carries-the-qualified-name", props: "C16", detail: format!("model {} sees the name {:?} in its context", q, cxname) });
+        }
         match id {
             Some(i) if sim.model_names.get(i) == Some(q) => {}
             _ => fails.push(Failure { check: "model-id-indexes-its-own-name", props: "C11",
@@ -119,8 +143,10 @@ fn run_forest(forest: &[Node]) -> Vec<Failure> {
     // ---- C11: a panic / a send to a dropped mailbox in each model in turn
     for (tag, q, _) in &want {
         for send_error in [false, true] {
-            let mut sim = build_sim(forest);
-            let _ = sim.run();
+            let mut sim = match build_sim(forest).0 {
+                Ok(s) => s,
+                Err(_) => continue,
+            };
             let inits = INIT_LOG.lock().unwrap().clone();
             let id = match inits.iter().find(|x| x.2 == *tag).and_then(|x| x.0) {
                 Some(i) => i,
